@@ -297,6 +297,8 @@ func baseOf(c psatoken.IClaims) any {
 		return &t.P2Claims
 	case *X3Claims:
 		return &t.P2Claims
+	case *X4Claims:
+		return &t.P1Claims
 	}
 	panic(fmt.Sprintf("unknown claims type %T", c))
 }
